@@ -211,15 +211,17 @@ func (ex *Exec) doAssert(id string, c *Term, fr *Frame, pos token.Pos) {
 	inPrefix := len(ex.taken) < len(ex.prefix)
 	_ = inPrefix
 	ex.nAssertQ++
-	s := ex.solver
-	s.push()
-	s.assert(tNot(c))
-	r := s.check()
+	ex.prepHard(c)
+	ex.collectSyms(c)
+	s := ex.active
 	var m map[string]string
 	ts := make([]*Term, len(ex.inputs))
 	for i, in := range ex.inputs {
 		ts[i] = in.T
 	}
+	s.push()
+	s.assert(tNot(c))
+	r := s.check()
 	if r == "sat" {
 		vals, ok := s.getValues(ts)
 		if ok {
@@ -633,7 +635,7 @@ func (ex *Exec) dumpQuery(path string, goal *Term) {
 		return
 	}
 	defer f.Close()
-	d := &Solver{kind: "dump", in: f, defined: map[int64]int{}, declared: map[string]int{}}
+	d := &Solver{kind: "dump", in: f, defined: map[int64]int{}, sided: map[int64]int{}, declared: map[string]int{}}
 	d.send("(set-logic ALL)")
 	for _, p := range ex.pc {
 		d.assert(p)
